@@ -10,6 +10,10 @@
 #include "fixture.h"
 #include "mock_scn.h"
 #include "CppUTestExt/MockSupport.h"
+#include "CppUTestExt/MockSupportPlugin.h"
+#include "CppUTest/TestRegistry.h"
+#include "CppUTest/TestOutput.h"
+#include "CppUTest/TestTestingFixture.h"
 #undef new
 
 using namespace scn;
@@ -67,6 +71,65 @@ void run_cpp(const Scenario& s, Observed& ob, bool query_leftover) {
     mock().clear();
     ob.failures = fx.failures();
     if (ob.failures) { ob.text = fx.output(); ob.diag = classify_message(ob.text); }
+}
+
+// ---- two consecutive tests under MockSupportPlugin (the recommended set-up: no checkExpectations()/clear() in the tests;
+// the plugin checks a test that has not failed yet and empties the mock after EVERY test). Test 1 is the scenario, test 2 a
+// fixed probe whose verdict is known: whatever test 1 did, it must not leak into test 2.
+struct PairRecorder : StringBufferTestOutput {
+    std::vector<std::string> failures_of[2]; int cur = -1;
+    void printCurrentTestStarted(const UtestShell& t) override { cur++; StringBufferTestOutput::printCurrentTestStarted(t); }
+    void printFailure(const TestFailure& f) override { if (cur >= 0 && cur < 2) failures_of[cur].push_back(f.getMessage().asCharString()); }
+};
+struct PairBody : ExecFunction { std::function<void()> f; void exec() override { f(); } };
+void check_plugin_pair(const Scenario& s, int probe) {
+    vf::ctx("plugin-pair");
+    vf::count("executed");
+    PairRecorder out; TestResult result(out);
+    int reached = 0;
+    {
+        TestRegistry reg; MockSupportPlugin plugin; reg.installPlugin(&plugin);
+        ExecFunctionTestShell t1, t2; PairBody b1, b2; t1.testFunction_ = &b1; t2.testFunction_ = &b2;
+        b1.f = [&]() {
+            if (s.strict) mock().strictOrder();
+            for (size_t i = 0; i < s.exps.size(); i++) {
+                const Exp& e = s.exps[i];
+                MockExpectedCall& x = mock().expectNCalls((unsigned)e.count, FN[e.fn]);
+                for (int k = 0; k < e.np; k++) x.withParameter(PN[e.pname[k]], e.pval[k]);
+            }
+            for (size_t c = 0; c < s.acts.size(); c++) {
+                const Act& a = s.acts[c];
+                MockActualCall& call = mock().actualCall(FN[a.fn]);
+                for (int k = 0; k < a.np; k++) call.withParameter(PN[a.pname[k]], a.pval[k]);
+                reached = (int)c + 1;
+            }
+        };
+        b2.f = [&]() {
+            if (probe == 0) { mock().expectOneCall("h"); mock().actualCall("h"); }      // must pass
+            else mock().actualCall(FN[0]);                                              // nothing expected: must fail
+        };
+        reg.addTest(&t2); reg.addTest(&t1);
+        reg.runAllTests(result);
+    }
+    mock().clear();
+    std::string desc;
+    auto d = [&]() { if (desc.empty()) desc = render(s) + (probe == 0 ? "| then test 2: expect h; call h" : "| then test 2: call f with nothing expected"); return desc; };
+    // test 2: independent of test 1
+    size_t f2 = out.failures_of[1].size();
+    if (probe == 0 && f2 != 0) vf::fail("plugin/next-test-charged-with-leftovers", d() + ": the second test matches its own expectations exactly but failed: " + out.failures_of[1][0].substr(0, 200));
+    if (probe == 1 && f2 != 1) vf::fail(f2 == 0 ? "plugin/next-test-unexpected-call-accepted" : "plugin/next-test-failed-more-than-once", d() + vf::fmt(": the second test makes a call nothing expects: %zu failures", f2));
+    // test 1: same verdict as the reference (narrow class only)
+    size_t f1 = out.failures_of[0].size();
+    if (f1 > 1) vf::fail(vf::fmt("plugin/test-failed-%zu-times/%s-then-%s", f1, diag_name(classify_message(out.failures_of[0][0])), diag_name(classify_message(out.failures_of[0][1]))), d() + vf::fmt(": %zu failures recorded for test 1", f1));
+    if (unambiguous(s)) {
+        Expected ex = reference(s);
+        int obs = f1 == 0 ? PASS : classify_message(out.failures_of[0][0]);
+        if (obs != ex.diag) vf::fail(vf::fmt("plugin-verdict/expected=%s/observed=%s", diag_name(ex.diag), diag_name(obs)), d() + ": under MockSupportPlugin test 1 should end as " + diag_name(ex.diag));
+        vf::outcome(vf::fmt("plugin/%s/probe%d", diag_name(ex.diag), probe));
+        if (ex.diag != PASS) vf::count("nontrivial");
+    } else vf::outcome("plugin/ambiguous");
+    (void)reached;
+    if (vf::want_sample()) vf::sample(d());
 }
 
 const char* ordinal(int n) { static const char* o[] = {"0th", "1st", "2nd", "3rd", "4th", "5th", "6th", "7th"}; return o[n < 8 ? n : 7]; }
@@ -139,7 +202,7 @@ void check(const Scenario& s, const Alphabet& A) {
     }
 }
 
-struct Sweep { const char* name; bool ig, obj; int maxE, maxA; int flagbits; /* how many of strict,ioc,ret,out vary */ int nfn; int scoped = 0; bool xout = false; };
+struct Sweep { const char* name; bool ig, obj; int maxE, maxA; int flagbits; /* how many of strict,ioc,ret,out vary */ int nfn; int scoped = 0; bool xout = false; bool plugin = false; };
 
 void run_sweep(const Sweep& sw) {
     Alphabet A = make_alphabet(sw.ig, sw.obj, sw.nfn);
@@ -162,9 +225,10 @@ void run_sweep(const Sweep& sw) {
         for (int i : te) s.exps.push_back(A.eo[i]);
         for (int i : ta) s.acts.push_back(A.ao[i]);
         if (!canonical(s)) { vf::count("skipped_symmetric"); return; }
+        if (sw.plugin) { s.strict = flags & 2; s.ignoreOtherCalls = false; s.readReturn = false; s.outParam = false; check_plugin_pair(s, flags & 1); return; }
         check(s, A);
     });
-    vf::require_outcomes(sw.name, sw.xout ? 5 : sw.scoped ? 6 : 12);
+    vf::require_outcomes(sw.name, sw.xout ? 5 : (sw.scoped || sw.plugin) ? 6 : 12);
 }
 
 } // namespace
@@ -180,9 +244,9 @@ int main(int argc, char** argv) {
         if (!T) sweeps = { {"basic22", false, false, 2, 2, 2, 2}, {"ignore12", true, false, 1, 2, 4, 2}, {"object12", false, true, 1, 2, 4, 1}, {"outignore12", true, false, 1, 2, 2, 2, 0, true} };
         else    sweeps = { {"basic22", false, false, 2, 2, 4, 2}, {"ignore22", true, false, 2, 2, 2, 2}, {"object22", false, true, 2, 2, 2, 1}, {"scope22", false, false, 2, 2, 2, 2, 1}, {"twoscopes22", false, false, 2, 2, 2, 2, 2}, {"outignore22", true, false, 2, 2, 2, 2, 0, true} };
     } else if (!T) {
-        sweeps = { {"basic22", false, false, 2, 2, 4, 2}, {"basic13", false, false, 1, 3, 3, 2}, {"ignore22", true, false, 2, 2, 2, 2}, {"object22", false, true, 2, 2, 2, 1}, {"scope22", false, false, 2, 2, 2, 2, 1}, {"scope13", false, false, 1, 3, 2, 2, 1}, {"twoscopes22", false, false, 2, 2, 2, 2, 2}, {"outignore22", true, false, 2, 2, 2, 2, 0, true} };
+        sweeps = { {"basic22", false, false, 2, 2, 4, 2}, {"basic13", false, false, 1, 3, 3, 2}, {"ignore22", true, false, 2, 2, 2, 2}, {"object22", false, true, 2, 2, 2, 1}, {"scope22", false, false, 2, 2, 2, 2, 1}, {"scope13", false, false, 1, 3, 2, 2, 1}, {"twoscopes22", false, false, 2, 2, 2, 2, 2}, {"outignore22", true, false, 2, 2, 2, 2, 0, true}, {"plugin22", false, false, 2, 2, 2, 2, 0, false, true} };
     } else {
-        sweeps = { {"basic23", false, false, 2, 3, 4, 2}, {"ignore23", true, false, 2, 3, 2, 2}, {"object22", false, true, 2, 2, 4, 1}, {"object23", false, true, 2, 3, 2, 1}, {"basic32", false, false, 3, 2, 2, 2}, {"scope23", false, false, 2, 3, 2, 2, 1}, {"twoscopes23", false, false, 2, 3, 2, 2, 2}, {"outignore23", true, false, 2, 3, 2, 2, 0, true} };
+        sweeps = { {"basic23", false, false, 2, 3, 4, 2}, {"ignore23", true, false, 2, 3, 2, 2}, {"object22", false, true, 2, 2, 4, 1}, {"object23", false, true, 2, 3, 2, 1}, {"basic32", false, false, 3, 2, 2, 2}, {"scope23", false, false, 2, 3, 2, 2, 1}, {"twoscopes23", false, false, 2, 3, 2, 2, 2}, {"outignore23", true, false, 2, 3, 2, 2, 0, true}, {"plugin23", false, false, 2, 3, 2, 2, 0, false, true} };
     }
     for (auto& sw : sweeps) run_sweep(sw);
     return vf::finish();
